@@ -5,8 +5,10 @@
 package cosih
 
 import (
+	"bufio"
 	"crypto/sha512"
 	"fmt"
+	"io"
 	"math/big"
 	"os"
 	"os/exec"
@@ -245,98 +247,185 @@ type MCase struct {
 // ---- resolver: the model says which encodings / hashes it looks up ------------
 
 // Resolve repeatedly evaluates `needs` of Run/<prop>.v on the cases inside
-// coqc and answers every request with a library primitive, until no case
-// needs anything more.  A request is (0,[z]) "encoding of z.B" or
-// (1,bytes) "hash-to-scalar of bytes".
+// Coq (one coqtop session per shard, kept across rounds) and answers every
+// request with a library primitive, until no case needs anything more.  A
+// request is (0,[z]) "encoding of z.B", (1,packed bytes) "hash-to-scalar of
+// bytes"; (2,[]) says the case will not ask again.
 func Resolve(prop string, cases []*MCase) error {
 	root := os.Getenv("VERIF_ROOT")
 	if root == "" {
 		return fmt.Errorf("VERIF_ROOT not set")
 	}
-	tmp, err := os.MkdirTemp("", "cosih_")
+	if len(cases) == 0 {
+		return nil
+	}
+	nsh := (len(cases) + 24) / 25
+	if nsh > 8 {
+		nsh = 8
+	}
+	shards := make([][]int, nsh)
+	for i := range cases {
+		shards[i%nsh] = append(shards[i%nsh], i)
+	}
+	errs := make([]error, nsh)
+	var wg sync.WaitGroup
+	for k := range shards {
+		wg.Add(1)
+		go func(k int) {
+			defer wg.Done()
+			errs[k] = resolveShard(root, prop, cases, shards[k])
+		}(k)
+	}
+	wg.Wait()
+	for _, e := range errs {
+		if e != nil {
+			return e
+		}
+	}
+	return nil
+}
+
+type session struct {
+	cmd *exec.Cmd
+	in  io.WriteCloser
+	out *bufio.Reader
+	n   int
+}
+
+func newSession(root, prop string) (*session, error) {
+	cmd := exec.Command("coqtop", "-q", "-R", filepath.Join(root, "coq"), "Mixin")
+	in, err := cmd.StdinPipe()
+	if err != nil {
+		return nil, err
+	}
+	outp, err := cmd.StdoutPipe()
+	if err != nil {
+		return nil, err
+	}
+	cmd.Stderr = nil
+	if err := cmd.Start(); err != nil {
+		return nil, err
+	}
+	s := &session{cmd: cmd, in: in, out: bufio.NewReaderSize(outp, 1<<20)}
+	_, err = s.ask("From Coq Require Import List ZArith NArith Bool String.\nImport ListNotations.\n" +
+		"Require Import Mixin.Base.Res Mixin.Run." + prop + ".\nOpen Scope Z_scope.\n" +
+		"Set Printing Width 1000000.\nSet Printing Depth 10000000.\n")
+	if err != nil {
+		s.close()
+		return nil, err
+	}
+	return s, nil
+}
+
+func (s *session) close() {
+	s.in.Close()
+	done := make(chan struct{})
+	go func() { s.cmd.Wait(); close(done) }()
+	select {
+	case <-done:
+	case <-time.After(5 * time.Second):
+		s.cmd.Process.Kill()
+	}
+}
+
+// ask sends commands and returns everything printed before the marker.
+func (s *session) ask(cmds string) (string, error) {
+	s.n++
+	marker := fmt.Sprintf("cosih_marker_%d", s.n)
+	if _, err := io.WriteString(s.in, cmds+"\nDefinition "+marker+" := tt.\nPrint "+marker+".\n"); err != nil {
+		return "", err
+	}
+	var sb strings.Builder
+	for {
+		line, err := s.out.ReadString('\n')
+		if strings.Contains(line, marker+" =") {
+			// swallow the type line of the marker
+			s.out.ReadString('\n')
+			return sb.String(), nil
+		}
+		sb.WriteString(line)
+		if err != nil {
+			return sb.String(), fmt.Errorf("coqtop ended: %v", err)
+		}
+	}
+}
+
+func resolveShard(root, prop string, cases []*MCase, idx []int) error {
+	s, err := newSession(root, prop)
 	if err != nil {
 		return err
 	}
-	defer os.RemoveAll(tmp)
-	pending := make([]int, len(cases))
-	for i := range cases {
-		pending[i] = i
-	}
-	for round := 0; round < 12 && len(pending) > 0; round++ {
+	defer s.close()
+	pending := idx
+	for round := 0; round < 16 && len(pending) > 0; round++ {
 		t0 := time.Now()
-		if os.Getenv("COSIH_TRACE") != "" {
-			defer func(r, n int) { fmt.Fprintf(os.Stderr, "resolve round %d: %d cases, %v\n", r, n, time.Since(t0)) }(round, len(pending))
-		}
-		shardSize := (len(pending) + 7) / 8
-		if shardSize < 25 {
-			shardSize = 25
-		}
-		type job struct{ idx []int }
-		var jobs []job
-		for i := 0; i < len(pending); i += shardSize {
-			j := i + shardSize
-			if j > len(pending) {
-				j = len(pending)
+		var sb strings.Builder
+		name := fmt.Sprintf("out_%d", round)
+		sb.WriteString("Definition " + name + " := Eval vm_compute in map needs [\n")
+		for k, ci := range pending {
+			if k > 0 {
+				sb.WriteString(";\n")
 			}
-			jobs = append(jobs, job{pending[i:j]})
+			sb.WriteString(cases[ci].Build(cases[ci].T))
 		}
-		results := make([][][]need, len(jobs))
-		errs := make([]error, len(jobs))
-		var wg sync.WaitGroup
-		sem := make(chan struct{}, 8)
-		for ji := range jobs {
-			wg.Add(1)
-			go func(ji int) {
-				defer wg.Done()
-				sem <- struct{}{}
-				defer func() { <-sem }()
-				results[ji], errs[ji] = evalNeeds(root, tmp, prop, fmt.Sprintf("r%d_%d", round, ji), cases, jobs[ji].idx)
-			}(ji)
+		sb.WriteString("\n].\nPrint " + name + ".\n")
+		txt, err := s.ask(sb.String())
+		if err != nil {
+			return err
 		}
-		wg.Wait()
+		i := strings.Index(txt, name+" =")
+		if i < 0 {
+			return fmt.Errorf("needs evaluation failed (round %d): %.400s", round, txt)
+		}
+		txt = txt[i+len(name)+2:]
+		if j := strings.LastIndex(txt, ": list"); j >= 0 {
+			txt = txt[:j]
+		}
+		res, err := parseNeeds(txt)
+		if err != nil {
+			return err
+		}
+		if len(res) != len(pending) {
+			return fmt.Errorf("needs: %d answers for %d cases", len(res), len(pending))
+		}
 		var next []int
-		for ji, jb := range jobs {
-			if errs[ji] != nil {
-				return errs[ji]
+		for k, ci := range pending {
+			ns := res[k]
+			if len(ns) == 0 {
+				continue
 			}
-			if len(results[ji]) != len(jb.idx) {
-				return fmt.Errorf("needs: %d answers for %d cases", len(results[ji]), len(jb.idx))
-			}
-			for k, ci := range jb.idx {
-				ns := results[ji][k]
-				if len(ns) == 0 {
-					continue
-				}
-				final := false
-				for _, n := range ns {
-					switch n.tag {
-					case 0:
-						if len(n.payload) != 1 {
-							return fmt.Errorf("bad enc need")
-						}
-						z := n.payload[0]
-						if z.Sign() < 0 || z.Cmp(L) >= 0 {
-							// not a point the harness can encode: leave the table without it
-							cases[ci].T.PutEnc(z, make([]byte, 32))
-							continue
-						}
-						cases[ci].T.PutPoint(z)
-					case 1:
-						b, e := unpack(n.payload)
-						if e != nil {
-							return e
-						}
-						cases[ci].T.putHash(b)
-					case 2:
-						final = true
-					default:
-						return fmt.Errorf("bad need tag %d", n.tag)
+			final := false
+			for _, n := range ns {
+				switch n.tag {
+				case 0:
+					if len(n.payload) != 1 {
+						return fmt.Errorf("bad enc need")
 					}
-				}
-				if !final {
-					next = append(next, ci)
+					z := n.payload[0]
+					if z.Sign() < 0 || z.Cmp(L) >= 0 {
+						// not a point the harness can encode
+						cases[ci].T.PutEnc(z, make([]byte, 32))
+						continue
+					}
+					cases[ci].T.PutPoint(z)
+				case 1:
+					b, e := unpack(n.payload)
+					if e != nil {
+						return e
+					}
+					cases[ci].T.putHash(b)
+				case 2:
+					final = true
+				default:
+					return fmt.Errorf("bad need tag %d", n.tag)
 				}
 			}
+			if !final {
+				next = append(next, ci)
+			}
+		}
+		if os.Getenv("COSIH_TRACE") != "" {
+			fmt.Fprintf(os.Stderr, "resolve round %d: %d cases, %v\n", round, len(pending), time.Since(t0))
 		}
 		pending = next
 	}
@@ -374,45 +463,6 @@ func unpack(pl []*big.Int) ([]byte, error) {
 type need struct {
 	tag     int
 	payload []*big.Int
-}
-
-func evalNeeds(root, tmp, prop, name string, cases []*MCase, idx []int) ([][]need, error) {
-	var sb strings.Builder
-	sb.WriteString("From Coq Require Import List ZArith NArith Bool String.\nImport ListNotations.\n")
-	sb.WriteString("Require Import Mixin.Base.Res Mixin.Run." + prop + ".\n")
-	sb.WriteString("Definition cs : list case := [\n")
-	for k, ci := range idx {
-		if k > 0 {
-			sb.WriteString(";\n")
-		}
-		sb.WriteString(cases[ci].Build(cases[ci].T))
-	}
-	sb.WriteString("\n].\nOpen Scope Z_scope.\nSet Printing Width 1000000.\nSet Printing Depth 10000000.\n")
-	sb.WriteString("Definition out := Eval vm_compute in map needs cs.\nPrint out.\n")
-	f := filepath.Join(tmp, name+".v")
-	if err := os.WriteFile(f, []byte(sb.String()), 0o644); err != nil {
-		return nil, err
-	}
-	cmd := exec.Command("timeout", "900", "coqc", "-R", filepath.Join(root, "coq"), "Mixin", f)
-	cmd.Dir = tmp
-	out, err := cmd.CombinedOutput()
-	if err != nil {
-		s := string(out)
-		if len(s) > 1500 {
-			s = s[:1500]
-		}
-		return nil, fmt.Errorf("coqc needs failed: %v\n%s", err, s)
-	}
-	s := string(out)
-	i := strings.Index(s, "out =")
-	if i < 0 {
-		return nil, fmt.Errorf("no needs output: %.300s", s)
-	}
-	s = s[i+5:]
-	if j := strings.LastIndex(s, ": list"); j >= 0 {
-		s = s[:j]
-	}
-	return parseNeeds(s)
 }
 
 // parseNeeds reads a Coq term of type list (list (Z * list Z)).
